@@ -16,7 +16,7 @@ Ltac params :=
   cbv beta iota delta [ref_match ref_match_multi ref_unique asfound_unique ref_rem_dup
     mp_presorted_default mp_el_index mp_classes mp_str_then mp_str_else mp_empty_op1 mp_empty_k1 mp_empty_conn
     mp_empty_op2 mp_empty_k2 mp_empty_err mp_uniq_op mp_uniq_err mp_sort_if_not mp_side mp_clamp_conn mp_clamp_op
-    mp_bad_op mp_clamp_minus mp_filter_if_not mp_eq_sorted mp_eq_presorted mm_presorted_default mm_pass
+    mp_bad_op mp_clamp_minus mp_filter_if_not mp_eq_sorted mp_eq_presorted mp_el_first mm_presorted_default mm_pass
     up_values_default up_val_start up_keep0_pos up_keep0_start up_i0 up_nkeep0 up_while_op up_ne_op up_nkeep_step
     up_i_step up_slice_lo up_slice_plus up_values_if_not rp_values_default rp_single_op rp_single_k rp_single_if_not
     rp_single_ret_v rp_single_ret rp_nkeep0 rp_val0 rp_f0 rp_range_lo rp_ne_op rp_flag_op rp_nkeep_step rp_slice_lo
@@ -230,15 +230,15 @@ Lemma skel_sensitive :
   let set_side P := mkM (mp_presorted_default P) (mp_el_index P) (mp_classes P) (mp_str_then P) (mp_str_else P)
         (mp_empty_op1 P) (mp_empty_k1 P) (mp_empty_conn P) (mp_empty_op2 P) (mp_empty_k2 P) (mp_empty_err P)
         (mp_uniq_op P) (mp_uniq_err P) (mp_sort_if_not P) SRight (mp_clamp_conn P) (mp_clamp_op P) (mp_bad_op P)
-        (mp_clamp_minus P) (mp_filter_if_not P) (mp_eq_sorted P) (mp_eq_presorted P) in
+        (mp_clamp_minus P) (mp_filter_if_not P) (mp_eq_sorted P) (mp_eq_presorted P) (mp_el_first P) in
   let set_clamp_op P := mkM (mp_presorted_default P) (mp_el_index P) (mp_classes P) (mp_str_then P) (mp_str_else P)
         (mp_empty_op1 P) (mp_empty_k1 P) (mp_empty_conn P) (mp_empty_op2 P) (mp_empty_k2 P) (mp_empty_err P)
         (mp_uniq_op P) (mp_uniq_err P) (mp_sort_if_not P) (mp_side P) (mp_clamp_conn P) CLt (mp_bad_op P)
-        (mp_clamp_minus P) (mp_filter_if_not P) (mp_eq_sorted P) (mp_eq_presorted P) in
+        (mp_clamp_minus P) (mp_filter_if_not P) (mp_eq_sorted P) (mp_eq_presorted P) (mp_el_first P) in
   let set_uniq_op P := mkM (mp_presorted_default P) (mp_el_index P) (mp_classes P) (mp_str_then P) (mp_str_else P)
         (mp_empty_op1 P) (mp_empty_k1 P) (mp_empty_conn P) (mp_empty_op2 P) (mp_empty_k2 P) (mp_empty_err P)
         CGt (mp_uniq_err P) (mp_sort_if_not P) (mp_side P) (mp_clamp_conn P) (mp_clamp_op P) (mp_bad_op P)
-        (mp_clamp_minus P) (mp_filter_if_not P) (mp_eq_sorted P) (mp_eq_presorted P) in
+        (mp_clamp_minus P) (mp_filter_if_not P) (mp_eq_sorted P) (mp_eq_presorted P) (mp_el_first P) in
   zm ref_match ClsNum false a1 a2 = good
   /\ zm (set_side ref_match) ClsNum false a1 a2 <> good
   /\ zm (set_clamp_op ref_match) ClsNum false a1 a2 = Err EIndex
@@ -247,3 +247,19 @@ Lemma skel_sensitive :
   /\ rem_dup_call_g zltb zeqb (mkR false CEq 1 false 0 0 0 0 0 1 CNe CGe 1 0 1 false)
                     [1; 0; 2; 3] [5; 1; 5; 5]%Z [3; 2; 3; 1]%Z false = Ok (false, [1; 2], None).
 Proof. cbv zeta. repeat split; try (vm_compute; reflexivity); intro H; vm_compute in H; discriminate H. Qed.
+
+(* the statement ORDER is a parameter too: with the emptiness guard in front of `el = arr1[0]` an
+   empty first array is rejected with ValueError instead of dying with IndexError; on non-empty
+   arrays the order is irrelevant *)
+Definition ref_match_guard_first : mparams :=
+  mkM false 0 (mkCls true true) true false CEq 0 COr CEq 0 EValue CNe EValue true SLeft COr CGt CEq 1 true CEq CEq false.
+Lemma skel_statement_order {A} (ltb eqb : A -> A -> bool) k p st a1 a2 :
+  match_g ltb eqb ref_match k p st [] a2 = Err EIndex
+  /\ match_g ltb eqb ref_match_guard_first k p st [] a2 = Err EValue
+  /\ (a1 <> [] -> match_g ltb eqb ref_match_guard_first k p st a1 a2 = match_g ltb eqb ref_match k p st a1 a2).
+Proof.
+  split; [reflexivity|]. split; [reflexivity|]. intro N. destruct a1 as [|d1 t1]; [congruence|].
+  unfold match_g, ref_match_guard_first, ref_match. cbn [mp_el_first mp_el_index nth_error mp_empty_conn mp_empty_op1 mp_empty_k1
+    mp_empty_op2 mp_empty_k2 mp_empty_err cmp_nat length Nat.eqb orb].
+  destruct (length a2 =? 0); reflexivity.
+Qed.
